@@ -27,8 +27,9 @@ VARIABLES ptype,      \* what the target reports as its peripheral device type: 
           kept,       \* command object the caller keeps: "none" | "cap" | "inq"
           held,       \* sense key of the FIRST CheckCondition the caller caught and still holds (0 = none)
           bset,       \* a second facade, attached to a media changer for the whole session: its set
+          adev,       \* the device object the first facade is attached to NOW: "a" (its own) or "b" (the changer's)
           hist, exported
-vars == <<ptype, aset, disk, cap, ident, fault, kept, held, bset, hist, exported>>
+vars == <<ptype, aset, disk, cap, ident, fault, kept, held, bset, adev, hist, exported>>
 
 \* only types the property names: for an unnamed type reported by the SAME device object the library keeps that
 \* object's previous set, which still offers the primary commands; C16 judges unnamed types on fresh devices
@@ -47,8 +48,13 @@ CapSets == {"sbc"}                     \* ... READ CAPACITY(10) and ATA PASS-THR
 Offers9E(s) == s = "sbc"                  \* AttachRules!Offers, restated for the two codes
 OffersA3(s) == s \in {"sbc", "smc"}
 
+\* every device object carries its own command set; the first facade uses the set of the device it is attached to now
+Eff == IF adev = "a" THEN aset ELSE bset
+\* what the device the first facade talks to reports as its type
+NowType == IF adev = "a" THEN ptype ELSE "changer"
+
 Init == /\ ptype = "disk" /\ aset = "sbc" /\ disk = [l \in LBAs |-> 0] /\ cap = 1 /\ ident = 1
-        /\ fault = 0 /\ kept = "none" /\ held = 0 /\ bset = "smc" /\ hist = <<>> /\ exported = FALSE
+        /\ fault = 0 /\ kept = "none" /\ held = 0 /\ bset = "smc" /\ adev = "a" /\ hist = <<>> /\ exported = FALSE
 
 Room == Len(hist) < MaxLen /\ ~exported
 Outcome(st) == IF st \in CCs THEN "CheckCondition" ELSE IF Tr = "sgio" THEN "UnspecifiedError" ELSE Named(st)
@@ -61,70 +67,76 @@ Sent(a, x, y, d1, d2) == /\ hist' = Append(hist, Rec(a, x, y, Out, 1, IF Out = "
                          /\ fault' = 0
                          /\ held' = IF held = 0 /\ fault \in CCs THEN KeyOf(fault) ELSE held
 
-Write(l, v) == /\ Room /\ aset \in BlockSets /\ Sent("write", l, v, 0, 0)
+Write(l, v) == /\ Room /\ Eff \in BlockSets /\ Sent("write", l, v, 0, 0)
                /\ disk' = IF fault = 0 THEN [disk EXCEPT ![l] = v] ELSE disk
-               /\ UNCHANGED <<ptype, aset, cap, ident, kept, bset, exported>>
-Read(l) == /\ Room /\ aset \in BlockSets /\ Sent("read", l, 0, disk[l], 0)
-           /\ UNCHANGED <<ptype, aset, disk, cap, ident, kept, bset, exported>>
+               /\ UNCHANGED <<ptype, aset, cap, ident, kept, bset, adev, exported>>
+Read(l) == /\ Room /\ Eff \in BlockSets /\ Sent("read", l, 0, disk[l], 0)
+           /\ UNCHANGED <<ptype, aset, disk, cap, ident, kept, bset, adev, exported>>
 \* a command without a data phase: its completion surfaces like any other
 Tur == /\ Room /\ Sent("tur", 0, 0, 0, 0)
-       /\ UNCHANGED <<ptype, aset, disk, cap, ident, kept, bset, exported>>
+       /\ UNCHANGED <<ptype, aset, disk, cap, ident, kept, bset, adev, exported>>
 \* READ CAPACITY(10) through the facade; with keep = TRUE the caller holds on to the command object
-Cap(keep) == /\ Room /\ aset \in CapSets /\ Sent(IF keep THEN "keepcap" ELSE "cap", 0, 0, cap, 0)
+Cap(keep) == /\ Room /\ Eff \in CapSets /\ Sent(IF keep THEN "keepcap" ELSE "cap", 0, 0, cap, 0)
              /\ kept' = IF keep /\ fault = 0 THEN "cap" ELSE kept
-             /\ UNCHANGED <<ptype, aset, disk, cap, ident, bset, exported>>
-Inq(keep) == /\ Room /\ Sent(IF keep THEN "keepinq" ELSE "inq", 0, 0, ident, TypeCode(ptype))
+             /\ UNCHANGED <<ptype, aset, disk, cap, ident, bset, adev, exported>>
+Inq(keep) == /\ Room /\ Sent(IF keep THEN "keepinq" ELSE "inq", 0, 0, ident, TypeCode(NowType))
              /\ kept' = IF keep /\ fault = 0 THEN "inq" ELSE kept
-             /\ UNCHANGED <<ptype, aset, disk, cap, ident, bset, exported>>
+             /\ UNCHANGED <<ptype, aset, disk, cap, ident, bset, adev, exported>>
 \* the kept object is issued again (facade.execute(cmd); cmd.unmarshall()): it reports the target as it is NOW
 Reissue == /\ Room /\ kept # "none"
-           /\ Sent("reissue", 0, 0, IF kept = "cap" THEN cap ELSE ident, IF kept = "cap" THEN 0 ELSE TypeCode(ptype))
-           /\ UNCHANGED <<ptype, aset, disk, cap, ident, kept, bset, exported>>
+           /\ Sent("reissue", 0, 0, IF kept = "cap" THEN cap ELSE ident, IF kept = "cap" THEN 0 ELSE TypeCode(NowType))
+           /\ UNCHANGED <<ptype, aset, disk, cap, ident, kept, bset, adev, exported>>
 \* the caller overwrites every value in the result it holds (nothing is sent, nothing else may change)
 Edit == /\ Room /\ kept # "none"
         /\ hist' = Append(hist, Rec("edit", 0, 0, "ok", 0, 0, 0))
-        /\ UNCHANGED <<ptype, aset, disk, cap, ident, fault, kept, held, bset, exported>>
+        /\ UNCHANGED <<ptype, aset, disk, cap, ident, fault, kept, held, bset, adev, exported>>
 \* ATA PASS-THROUGH(16) asks for raw sense: only modelled with a GOOD completion
-Ata == /\ Room /\ aset \in CapSets /\ fault = 0 /\ Sent("ata", 0, 0, 0, 0)
-       /\ UNCHANGED <<ptype, aset, disk, cap, ident, kept, bset, exported>>
+Ata == /\ Room /\ Eff \in CapSets /\ fault = 0 /\ Sent("ata", 0, 0, 0, 0)
+       /\ UNCHANGED <<ptype, aset, disk, cap, ident, kept, bset, adev, exported>>
 \* re-attach: one INQUIRY; when it completes the set of the type reported NOW is selected
 Reattach == /\ Room /\ Sent("reattach", 0, 0, 0, 0)
-            /\ aset' = IF fault = 0 THEN SetOf(ptype) ELSE aset
-            /\ UNCHANGED <<ptype, disk, cap, ident, kept, bset, exported>>
+            /\ aset' = IF fault = 0 /\ adev = "a" THEN SetOf(ptype) ELSE aset
+            /\ UNCHANGED <<ptype, disk, cap, ident, kept, bset, adev, exported>>
+\* the facade is handed the OTHER device object (facade(dev)): one INQUIRY, to THAT device; the facade talks to it from
+\* now on, with the set that device carries (selected now if the INQUIRY completed); the device left behind hears nothing
+Switch == /\ Room /\ Sent("switch", 0, 0, 0, 0)
+          /\ adev' = IF adev = "a" THEN "b" ELSE "a"
+          /\ aset' = IF fault = 0 /\ adev = "b" THEN SetOf(ptype) ELSE aset
+          /\ UNCHANGED <<ptype, disk, cap, ident, kept, bset, exported>>
 \* commands the facade finds by operation code: sent only if the selected set offers the code
 Probe(code) ==
     /\ Room
-    /\ IF (code = "9E" /\ Offers9E(aset)) \/ (code = "A3" /\ OffersA3(aset))
+    /\ IF (code = "9E" /\ Offers9E(Eff)) \/ (code = "A3" /\ OffersA3(Eff))
        THEN Sent("probe" \o code, 0, 0, IF code = "9E" THEN cap ELSE 0, 0)
        ELSE hist' = Append(hist, Rec("probe" \o code, 0, 0, "refused", 0, 0, 0)) /\ UNCHANGED <<fault, held>>
-    /\ UNCHANGED <<ptype, aset, disk, cap, ident, kept, bset, exported>>
+    /\ UNCHANGED <<ptype, aset, disk, cap, ident, kept, bset, adev, exported>>
 \* the caller looks at the error it has been holding: it still says what the target sent with THAT completion
 Inspect == /\ Room /\ held # 0
            /\ hist' = Append(hist, Rec("inspect", 0, 0, "ok", 0, held, 0))
-           /\ UNCHANGED <<ptype, aset, disk, cap, ident, fault, kept, held, bset, exported>>
+           /\ UNCHANGED <<ptype, aset, disk, cap, ident, fault, kept, held, bset, adev, exported>>
 \* the other facade (on its own device, a media changer served by the same target model) asks for the commands
 \* found by operation code and re-attaches: nothing of the first facade's changes
 Other(a) == /\ Room /\ a \in {"b_probe9E", "b_probeA3", "b_reattach"}
             /\ IF a = "b_probe9E" THEN hist' = Append(hist, Rec(a, 0, 0, "refused", 0, 0, 0)) /\ UNCHANGED <<fault, held>>
                ELSE Sent(a, 0, 0, 0, 0)
-            /\ UNCHANGED <<ptype, aset, disk, cap, ident, kept, bset, exported>>
+            /\ UNCHANGED <<ptype, aset, disk, cap, ident, kept, bset, adev, exported>>
 \* the environment
 SetType(t) == /\ Room /\ t # ptype /\ ptype' = t /\ hist' = Append(hist, Rec("settype", TypeCode(t), 0, "ok", 0, 0, 0))
-              /\ UNCHANGED <<aset, disk, cap, ident, fault, kept, held, bset, exported>>
+              /\ UNCHANGED <<aset, disk, cap, ident, fault, kept, held, bset, adev, exported>>
 Resize == /\ Room /\ cap' = 3 - cap /\ hist' = Append(hist, Rec("resize", 3 - cap, 0, "ok", 0, 0, 0))
-          /\ UNCHANGED <<ptype, aset, disk, ident, fault, kept, held, bset, exported>>
+          /\ UNCHANGED <<ptype, aset, disk, ident, fault, kept, held, bset, adev, exported>>
 Rename == /\ Room /\ ident' = 3 - ident /\ hist' = Append(hist, Rec("rename", 3 - ident, 0, "ok", 0, 0, 0))
-          /\ UNCHANGED <<ptype, aset, disk, cap, fault, kept, held, bset, exported>>
+          /\ UNCHANGED <<ptype, aset, disk, cap, fault, kept, held, bset, adev, exported>>
 Arm(st) == /\ Room /\ fault = 0 /\ fault' = st /\ hist' = Append(hist, Rec("arm", st, 0, "ok", 0, 0, 0))
-           /\ UNCHANGED <<ptype, aset, disk, cap, ident, kept, held, bset, exported>>
+           /\ UNCHANGED <<ptype, aset, disk, cap, ident, kept, held, bset, adev, exported>>
 Export == /\ Len(hist) = MaxLen /\ ~exported
           /\ PrintT(<<"SESSION", ToJson([tr |-> Tr, steps |-> hist])>>)
-          /\ exported' = TRUE /\ UNCHANGED <<ptype, aset, disk, cap, ident, fault, kept, held, bset, hist>>
+          /\ exported' = TRUE /\ UNCHANGED <<ptype, aset, disk, cap, ident, fault, kept, held, bset, adev, hist>>
 
 Next == \/ \E l \in LBAs, v \in Vals : Write(l, v)
         \/ \E l \in LBAs : Read(l)
         \/ \E k \in BOOLEAN : Cap(k) \/ Inq(k)
-        \/ Reissue \/ Edit \/ Ata \/ Reattach \/ Inspect \/ Tur
+        \/ Reissue \/ Edit \/ Ata \/ Reattach \/ Switch \/ Inspect \/ Tur
         \/ \E a \in {"b_probe9E", "b_probeA3", "b_reattach"} : Other(a)
         \/ \E c \in {"9E", "A3"} : Probe(c)
         \/ \E t \in Types : SetType(t)
@@ -134,9 +146,9 @@ Next == \/ \E l \in LBAs, v \in Vals : Write(l, v)
 Spec == Init /\ [][Next]_vars
 
 \* the selected set only changes at a re-attach that completed, and then to the set of the reported type
-SetFollowsAttach == [][aset' # aset => /\ hist' # <<>> /\ hist'[Len(hist')].act = "reattach" /\ hist'[Len(hist')].out = "ok"
+SetFollowsAttach == [][aset' # aset => /\ hist' # <<>> /\ hist'[Len(hist')].act \in {"reattach", "switch"} /\ hist'[Len(hist')].out = "ok"
                                        /\ aset' = SetOf(ptype)]_vars
 \* a command that was not offered reached nobody, a command that failed changed nothing on the medium
 RefusedSendsNothing == \A i \in 1..Len(hist) : hist[i].out = "refused" => hist[i].sent = 0
-TypeOK == aset \in {"sbc", "mmc", "smc"} /\ kept \in {"none", "cap", "inq"} /\ cap \in 1..2 /\ ident \in 1..2
+TypeOK == adev \in {"a", "b"} /\ aset \in {"sbc", "mmc", "smc"} /\ kept \in {"none", "cap", "inq"} /\ cap \in 1..2 /\ ident \in 1..2
 =============================================================================
